@@ -280,7 +280,7 @@ structure Node where
   /-- enum members: `m.symbol` -/
   members : List Str := []
   fields : List Str := []
-  /-- the fields holding an anonymous callback (written without `version`) -/
+  /-- the fields holding an anonymous callback (a separate branch of `_write_field`) -/
   cbFields : List Str := []
   props : List PropInfo := []
   sigs : List Str := []
@@ -501,7 +501,8 @@ def renameStep (nameOf : Str → Option Str) (st : RState) (r : Str × Str) : RS
   match nameOf r.2 with
   | none => st                                   -- "Can't find symbol"
   | some gname =>
-    if truthyS (st.shadowedBy r.2) then st       -- "already shadowed by"
+    if r.2 = r.1 then st                         -- `target is node`: "can't be renamed to itself"
+    else if truthyS (st.shadowedBy r.2) then st  -- "already shadowed by"
     else if truthyS (st.shadows r.2) then st     -- "already shadows"
     else if truthyS (st.shadowedBy r.1) then st  -- "is already shadowed by ..., can't shadow ... as well"
     else match nameOf r.1 with
@@ -692,10 +693,6 @@ inductive WKind where
   | field | callbackField | property | signal
   deriving DecidableEq, Repr
 
-def WKind.hasVersion : WKind → Bool
-  | .alias | .callbackField => false
-  | _ => true
-
 def optAttr (name : String) (v : Option Str) : List (Str × Str) :=
   match v with | some (c :: cs) => [(name.toList, c :: cs)] | _ => []
 
@@ -703,10 +700,11 @@ def optAttr (name : String) (v : Option Str) : List (Str × Str) :=
 def someAttr (name : String) (v : Option Str) : List (Str × Str) :=
   match v with | some s => [(name.toList, s)] | none => []
 
-/-- `_append_version` + `_append_node_generic`; `introspectable` is the flag IntrospectablePass
-    may have cleared for reasons outside this property -/
-def genericAttrs (k : WKind) (introspectable : Bool) (e : Elem) : List (Str × Str) :=
-  (if k.hasVersion then optAttr "version" e.version else [])
+/-- `_append_version` + `_append_node_generic` (every element writer calls both: pinned by
+    `C03_writer_tables`); `introspectable` is the flag IntrospectablePass may have cleared for
+    reasons outside this property -/
+def genericAttrs (_k : WKind) (introspectable : Bool) (e : Elem) : List (Str × Str) :=
+  optAttr "version" e.version
   ++ (if e.skip || !introspectable then [("introspectable".toList, "0".toList)] else [])
   ++ (if truthyS e.deprecated || truthyS e.deprecatedDoc then [("deprecated".toList, "1".toList)] else [])
   ++ optAttr "deprecated-version" e.deprecated
